@@ -9,10 +9,12 @@ from vf.tlc import render_cfg, require_ok, run_tlc, sany, wrap_module
 
 META = {
     "engine": "wire",
-    "text": "TLC model-checks WireConn.tla: every client script of <= MaxCalls calls over a 25-method service (every "
+    "text": "TLC model-checks WireConn.tla: every client script of <= MaxCalls calls over a 30-method service (every "
             "failure kind: method error, init error, non-Stream / missing header, unknown method, parameter and "
-            "version rejection, mid-stream errors with and without logs, emit+finish) x every client exit (close, "
-            "cancel, iterate, after k ticks, raising log callback) followed by a probe call, all client/server "
+            "version rejection, mid-stream errors with and without logs, emit+finish, result / header / emitted values "
+            "the declared type cannot hold) x every client exit (close, cancel, iterate, after k ticks, raising log "
+            "callback, exchange with a batch of another schema, further close/cancel/tick on the ended session) "
+            "followed by a probe call, all client/server "
             "interleavings, against OwnResponse / NotBroken / ServerAlive / NoOrphanWait / Boundary / ProbeAnswered. "
             "Every script TLC enumerates is executed on real pipe (and unix/tcp) connections against the real "
             "RpcServer.serve loop with a watchdog; each call carries a unique argument that every result, batch, "
@@ -82,7 +84,11 @@ def run(ctx: Ctx) -> None:
         jobs.append((False, s, "unix" if len(jobs) % 4 else "tcp"))
     for s in ver1:
         jobs.append((True, s, "pipe"))
-    sel = two if not ctx.quick else [s for i, s in enumerate(two) if i % max(1, len(two) // 1500) == 0]
+    # two-call scripts: TLC enumerates (and model-checks) all of them; a seeded sample is executed on the real code
+    n_two = 1500 if ctx.quick else 45000
+    sel = two if len(two) <= n_two else ctx.rng.sample(two, n_two)
+    ctx.extra["two_call_scripts_enumerated"] = len(two)
+    ctx.extra["two_call_scripts_executed"] = len(sel)
     for i, s in enumerate(sel):
         jobs.append((False, s, "pipe" if ctx.quick or i % 3 else "unix"))
     traces, metas = [], []
